@@ -80,13 +80,13 @@ func vf19DrawSide(rt *rapid.T, side int, salt uint64, allowGate bool) *vf19Side 
 		s.all = append(s.all, data...)
 	}
 	switch rapid.IntRange(0, 9).Draw(rt, lbl+"term") {
-	case 0, 1, 2, 3:
+	case 0, 1, 2:
 		s.term = vf19EOF
-	case 4, 5, 6:
+	case 3, 4, 5:
 		s.term = vf19RErr
 		s.rerr = vf19ScriptErr(fmt.Sprintf("read side %d", side))
 	}
-	if rapid.IntRange(0, 9).Draw(rt, lbl+"wfault") < 2 {
+	if rapid.IntRange(0, 9).Draw(rt, lbl+"wfault") < 1 {
 		s.wfailAt = rapid.IntRange(0, 700).Draw(rt, lbl+"wfailAt")
 		s.werr = vf19ScriptErr(fmt.Sprintf("write side %d", side))
 	}
